@@ -29,3 +29,16 @@ pub fn disasbin(rest: &str) -> String {
         Err(e) => format!("err {}", hex(format!("{}", e).as_bytes())),
     }
 }
+
+/// in-process replica of `dis/main.rs` after the file has been read (the real binary is run by the C20 check)
+pub fn dismain(rest: &str) -> String {
+    let bytes = match crate::util::try_unhex(rest.trim()) {
+        Some(b) => b,
+        None => return "bad-request".to_string(),
+    };
+    let out = match rspirv::dr::load_bytes(&bytes) {
+        Ok(module) => format!("{}\n", module.disassemble()),
+        Err(err) => format!("{}\n", err),
+    };
+    format!("exit0 {}", hex(out.as_bytes()))
+}
